@@ -270,7 +270,9 @@ def clenshaw_qbfs_der(cs, usq, j=1, alphas=None):
     alphas = _initialize_alphas(cs, usq, alphas, j=j)
     # seed with j=0 (S, not its derivative)
     clenshaw_qbfs(cs, usq, alphas[0])
-    for jj in range(1, j+1):
+    # the sum is of degree M in x: derivatives of order > M are identically
+    # zero (and have no alpha to seed)
+    for jj in range(1, min(j, M)+1):
         alphas[jj][M-jj] = -4 * jj * alphas[jj-1][M-jj+1]
         for n in range(M-2, -1, -1):
             # this is hideous, and just expresses:
